@@ -463,6 +463,25 @@ func (k *simk) ready(a *kactor) bool {
 // Raw is the system call entry of every actor.
 func (k *simk) Raw(trap, a1, a2, a3, a4, a5, a6 uintptr) (uintptr, uintptr, syscall.Errno) {
 	a := k.cur
+	if a.isChild && !a.entered {
+		// the child actor re-runs the launch function from its top: until it reaches its clone call it
+		// is, semantically, still the parent re-doing what the parent did before the fork. Those calls
+		// are answered from the parent's state and are not events of the child.
+		par := a.proc.parent
+		switch trap {
+		case syscall.SYS_GETPID:
+			return uintptr(par.pid), 0, 0
+		case syscall.SYS_GETPPID:
+			return 1, 0, 0
+		case unix.SYS_GETTID:
+			return uintptr(par.pid), 0, 0
+		case syscall.SYS_GETUID, syscall.SYS_GETEUID:
+			return uintptr(par.uid), 0, 0
+		case syscall.SYS_GETGID, syscall.SYS_GETEGID:
+			return uintptr(par.gid), 0, 0
+		}
+		vcore.Harnessf("stub kernel: system call %s before the clone is not modelled for the re-run of the child", sysName(trap))
+	}
 	req := &sysreq{trap: trap, a: [6]uintptr{a1, a2, a3, a4, a5, a6}}
 	g := k.park(a, req)
 	r, e := k.exec(a, req, g.fault)
@@ -490,6 +509,8 @@ func sysName(trap uintptr) string {
 		return "write"
 	case syscall.SYS_GETPID:
 		return "getpid"
+	case syscall.SYS_GETPPID:
+		return "getppid"
 	case syscall.SYS_PRCTL:
 		return "prctl"
 	case unix.SYS_SETGROUPS:
@@ -683,6 +704,15 @@ func (k *simk) exec(a *kactor, req *sysreq, fault *kfault) (ret uintptr, errno s
 		return done(int64(fd), 0)
 	case syscall.SYS_GETPID:
 		return done(int64(p.pid), 0)
+	case syscall.SYS_GETPPID:
+		// 0 for the first process of a new pid namespace (its parent is not visible), 1 for an orphan
+		switch {
+		case p.ns&unix.CLONE_NEWPID != 0:
+			return done(0, 0)
+		case p.parent == nil || !p.parent.alive:
+			return done(1, 0)
+		}
+		return done(int64(p.parent.pid), 0)
 	case syscall.SYS_PRCTL:
 		switch A[0] {
 		case syscall.PR_SET_SECUREBITS:
